@@ -19,7 +19,7 @@ Lemma strict_nofuel {A} : strict_m (@nofuel A).
 Proof. intros s H. exact I. Qed.
 Lemma strict_bind {A B} (m : M A) (f : A -> M B) : strict_m m -> (forall a, strict_m (f a)) -> strict_m (bind m f).
 Proof.
-  intros Hm Hf s H. unfold bind. specialize (Hm s H). destruct (m s) as [a s'| | |]; auto. apply (Hf a s' Hm).
+  intros Hm Hf s H. unfold bind. specialize (Hm s H). destruct (m s) as [a s'| | | |]; auto. apply (Hf a s' Hm).
 Qed.
 Lemma strict_p_next : strict_m p_next.
 Proof.
@@ -113,7 +113,7 @@ Definition nook {A} (m : M A) : Prop := forall s, dead (rs s) -> match m s with 
 Lemma nook_fail {A} : nook (@fail A). Proof. intros s H. exact I. Qed.
 Lemma nook_nofuel {A} : nook (@nofuel A). Proof. intros s H. exact I. Qed.
 Lemma nook_bind_r {A B} (m : M A) (f : A -> M B) : strict_m m -> (forall a, nook (f a)) -> nook (bind m f).
-Proof. intros Hm Hf s H. unfold bind. specialize (Hm s H). destruct (m s) as [a s'| | |]; auto. exact (Hf a s' Hm). Qed.
+Proof. intros Hm Hf s H. unfold bind. specialize (Hm s H). destruct (m s) as [a s'| | | |]; auto. exact (Hf a s' Hm). Qed.
 
 Ltac nk IH :=
   repeat first
@@ -141,9 +141,9 @@ Qed.
 Theorem read_file_failing_reader input : forall f s', read_file input true <> POk f s'.
 Proof.
   intros f s' E. unfold read_file in E.
-  pose proof (top_nook (2 * (length input + 3) + 8)
+  pose proof (top_nook (2 * (length input + margin) + 8)
     {| structs := []; messages := []; enums := []; unions := []; consts := []; imports := []; gopackage := [] |} [] 0%N false false) as H.
-  specialize (H {| rs := next_results (length input + 3)
+  specialize (H {| rs := next_results (length input + margin)
                       {| buf := {| rest := input; lastByte := None; lastRune := None; failing := true |}; errs := [] |};
                    cur := tok0; keep := false; perrs := [] |}).
   cbn [rs] in H. rewrite E in H. apply H. apply next_results_dead. split; [reflexivity|intros []].
